@@ -17,6 +17,7 @@ from tokenize import detect_encoding
 from types import CodeType, ModuleType
 from typing import TYPE_CHECKING, Callable, Dict, Generator, List, Optional, Tuple
 
+from pyccolo.emit_event import _TRACER_STACK
 from pyccolo.extra_builtins import GUARD_PREFIX
 from pyccolo.trace_events import TraceEvent
 from pyccolo.utils import clone_function
@@ -77,7 +78,7 @@ def _cache_signature_of(path: str) -> Optional[str]:
 class TraceLoader(SourceFileLoader):
     def __init__(self, tracers: List["BaseTracer"], *args, **kwargs) -> None:
         super().__init__(*args, **kwargs)
-        self._tracers = tracers
+        self._all_tracers = tracers
         self._ast_rewriter = tracers[-1].make_ast_rewriter(path=None)  # type: ignore[arg-type]  # this will be set below
         self._syntax_augmenters: List[Tuple["BaseTracer", List[Callable]]] = []
         for tracer in tracers:
@@ -89,6 +90,12 @@ class TraceLoader(SourceFileLoader):
         self._rewrote_source: bool = False
         # code object obtained by exec_module ahead of running the module
         self._code_for_exec: Optional[Tuple[str, CodeType]] = None
+
+    @property
+    def _tracers(self) -> List["BaseTracer"]:
+        # a loader can outlive the context it was handed out in (lazy loading, a spec kept for later):
+        # only tracers that are still active take part; with none left this is a plain source loader
+        return [tracer for tracer in self._all_tracers if tracer in _TRACER_STACK]
 
     def get_tracers_for_path(self, path: str) -> List["BaseTracer"]:
         return [
@@ -209,6 +216,8 @@ class TraceLoader(SourceFileLoader):
     def _register_guards(self, code: CodeType) -> None:
         # guard names are registered (defined in builtins) by the rewriter; bytecode that comes
         # from the cache refers to them without the rewriter having run in this process
+        if len(self._tracers) == 0:
+            return
         pending = [code]
         while pending:
             code_obj = pending.pop()
@@ -294,11 +303,12 @@ class TraceLoader(SourceFileLoader):
 
     def exec_module(self, module: ModuleType) -> None:
         source_path = str(self.get_filename(module.__name__))
+        tracers = self._tracers  # those active now: the same list for switching off and on again below
         should_reenable_saved_state = []
         enforce_pickled_bookkeeping = False
         tracer = None
         bytecode_caching_allowed = True
-        for tracer in reversed(self._tracers):
+        for tracer in reversed(tracers):
             should_disable = False
             if tracer._should_instrument_file_impl(source_path):
                 bytecode_caching_allowed = (
@@ -320,7 +330,7 @@ class TraceLoader(SourceFileLoader):
         if enforce_pickled_bookkeeping:
             cache_path = self._pyccolo_cache_from_source(source_path)
             pickle_path = os.path.splitext(cache_path)[0] + ".pkl"
-            tracer = self._tracers[-1]
+            tracer = tracers[-1]
         should_reenable_saved_state.reverse()
         num_handled = 0
         try:
@@ -365,7 +375,7 @@ class TraceLoader(SourceFileLoader):
                 except OSError:
                     pass
             for tracer, should_reenable in zip(
-                self._tracers, should_reenable_saved_state
+                tracers, should_reenable_saved_state
             ):
                 tracer._emit_event(
                     TraceEvent.after_import.value, None, sys._getframe(), module=module
@@ -377,7 +387,7 @@ class TraceLoader(SourceFileLoader):
             # the module body (or its compilation) may raise: the tracers switched off above
             # must not stay off for the rest of their tracing context
             for tracer, should_reenable in list(
-                zip(self._tracers, should_reenable_saved_state)
+                zip(tracers, should_reenable_saved_state)
             )[num_handled:]:
                 if should_reenable:
                     tracer._enable_tracing()
